@@ -10,6 +10,8 @@
                                     natural given as little-endian 16-bit limbs (<<>> for 0)
      <<"I", sgn, mant, exp>>, <<"F", sgn, mant, exp>>   typed plist integer / real
      <<"S", codes>>  <<"Y", bytes>>  text (code points) / binary data
+     <<"X", id>>                    a longer text, interned by the recorder: ids are equal
+                                    exactly when the texts are (injective table per trace)
      <<"T", <<y, mo, d, h, mi, s>>>> plist date
      <<"L", <<node, ...>>>>         ordered list
      <<"D", <<<<key, node>>, ...>>>> mapping, keys (code-point sequences) strictly
@@ -18,7 +20,7 @@
 EXTENDS Integers, Sequences, FiniteSets
 
 Min(S) == CHOOSE x \in S : \A y \in S : x <= y
-LeafTags == {"N", "B", "R", "I", "F", "S", "Y", "T"}
+LeafTags == {"N", "B", "R", "I", "F", "S", "X", "Y", "T"}
 
 (* lexicographic order on code-point sequences *)
 RECURSIVE LexLt(_, _, _)
@@ -36,6 +38,7 @@ WellFormed(t) ==
                                       /\ (t[3] # <<>> => t[3][1] % 2 = 1 /\ t[3][Len(t[3])] # 0)
                                       /\ (t[2] = 0 => t[4] = 0)
        [] t[1] \in {"S", "Y"} -> Len(t) = 2 /\ \A i \in 1..Len(t[2]) : t[2][i] >= 0
+       [] t[1] = "X" -> Len(t) = 2 /\ t[2] >= 1
        [] t[1] = "T" -> Len(t) = 2 /\ Len(t[2]) = 6
        [] t[1] = "L" -> Len(t) = 2 /\ \A i \in 1..Len(t[2]) : WellFormed(t[2][i])
        [] t[1] = "D" -> /\ Len(t) = 2
